@@ -88,7 +88,7 @@ the trainer's example store (hook: Trainer::verif_examples) equals the reference
 example per annotated boundary in order, label = annotation, features = RefFeatures with \
 multiplicities. Non-trivial = corpus with >= 1 unknown boundary and >= 1 dictionary match.",
         n,
-        || train::train_case(TrainGenCfg { max_sentences: 8, max_len: 10, tame: false, tag_dict: false }),
+        || train::train_case(TrainGenCfg { max_sentences: 8, max_len: 10, tame: false, tag_dict: false, tag_focus: false }),
         test_case,
     );
 }
